@@ -249,12 +249,14 @@ func runC24(c *core.Ctx) {
 		} else {
 			// flush: mergeQueued → send → truncate, in that order, on the non-nil edge
 			var merge, send, trunc ssa.Instruction
+			nSends := 0
 			an.Instrs(flush, func(in ssa.Instruction) {
 				if call, ok := in.(*ssa.Call); ok && strings.HasSuffix(an.CalleeID(call), "queue.mergeQueued") {
 					merge = in
 				}
 				if s, ok := in.(*ssa.Send); ok && isChanField(s.Chan, "sendCh") {
 					send = in
+					nSends++
 				}
 				if st, ok := in.(*ssa.Store); ok {
 					if sl, ok := st.Val.(*ssa.Slice); ok && sl.High != nil {
@@ -266,7 +268,7 @@ func runC24(c *core.Ctx) {
 					}
 				}
 			})
-			ok := merge != nil && send != nil && trunc != nil && an.Dominates(merge, send) && an.Dominates(send, trunc)
+			ok := nSends == 1 && merge != nil && send != nil && trunc != nil && an.Dominates(merge, send) && an.Dominates(send, trunc)
 			if ok {
 				// the sent value is the merged request
 				ok = an.Unwrap(send.(*ssa.Send).X) == merge.(ssa.Value)
